@@ -343,6 +343,9 @@ class KindFlow(MustFlow):
             return test.args[0].id, frozenset(yes), frozenset(no)
         if isinstance(test, ast.Call) and callee_name(test) == "is_undefined" and len(test.args) == 1 and isinstance(test.args[0], ast.Name):
             return test.args[0].id, _k("U"), _k("U")
+        if isinstance(test, ast.Call) and callee_name(test) == "hasattr" and len(test.args) == 2 and isinstance(test.args[0], ast.Name) and isinstance(test.args[1], ast.Constant) and test.args[1].value in ("__liquid__", "force_liquid_default", "__getitem_async__", "filter_async"):
+            # protocol attributes of drops / Undefined: no JSON-like value has them
+            return test.args[0].id, _k("OU"), EMPTY
         if isinstance(test, ast.Call) and callee_name(test) == "is_truthy" and len(test.args) == 1 and isinstance(test.args[0], ast.Name):
             # Liquid truthiness: everything except nil, false and undefined (objects answer
             # through __liquid__, kind O)
@@ -353,6 +356,26 @@ class KindFlow(MustFlow):
                 return test.left.id, _k("N"), _k("N")
             if cv is None and isinstance(test.ops[0], ast.IsNot):
                 return test.left.id, ALL - _k("N"), ALL - _k("N")
+            if isinstance(cv, bool) and isinstance(test.ops[0], ast.Is):
+                # `x is True` / `x is False`: only a bool passes; failing excludes nothing (the other bool)
+                return test.left.id, _k("B"), EMPTY
+            if isinstance(cv, bool) and isinstance(test.ops[0], ast.IsNot):
+                return test.left.id, ALL, _k("NIFSLDRUCYO")
+        if isinstance(test, ast.Compare) and len(test.ops) == 1 and isinstance(test.ops[0], ast.In) and isinstance(test.left, ast.Name) and isinstance(test.comparators[0], (ast.Tuple, ast.List, ast.Set)) and all(isinstance(e, ast.Constant) for e in test.comparators[0].elts):
+            vals = [e.value for e in test.comparators[0].elts]
+            yes = set()
+            for v_ in vals:
+                if v_ is None:
+                    yes.add("N")
+                elif isinstance(v_, (bool, int, float)):
+                    yes |= set("BIFC")  # 0 == False, 1 == True, 1.0 == 1 ...
+                elif isinstance(v_, str):
+                    yes |= set("S")
+                else:
+                    return None
+            yes.add("O")  # objects may define __eq__
+            no = _k("N") if None in vals else EMPTY
+            return test.left.id, frozenset(yes), no
         return None
 
     def _gen_cond(self, test: ast.AST, truth: bool) -> set:
